@@ -11,11 +11,11 @@ TECH = {
     "B": "interprocedural trace summaries + error-path typestate over MIR, type-directed adapter composition",
     "C": "provenance dataflow, dominance and loop-nest rules over MIR",
     "D": "call-graph reachability / effect rules over MIR (incl. fmt::Display edges)",
-    "E": "predicate (valuation-set) dataflow over MIR; cursor linear-form rules (consume-advance, tail flush, common base)",
+    "E": "predicate (valuation-set) dataflow over MIR with atom-forgetting widening; cursor and position linear-form rules (consume-advance, tail flush incl. range form, common base, kill-aware position reuse, exact carried positions, prefix/suffix box agreement, equal lengths backed by element comparisons)",
     "F": "structural table / sibling-agreement rules over HIR and MIR; net-effect analysis by conditional constant "
-         "propagation over MIR (engines/neteffect.py) for the DiffOp adjust helpers; call-site constant specialisation of helpers",
+         "propagation over MIR (engines/neteffect.py) for the DiffOp adjust helpers; call-site constant specialisation of helpers; linear normal form of integer guards",
     "G": "order / conservation rules over MIR (swap, remove, stale snapshot, shrink-then-empty, absorb-only-Equal, grouping "
-         "passes changes through) with dominance and backward-slice evidence",
+         "passes changes through, bulk removal through dedup_by/retain closures) with dominance and backward-slice evidence",
 }
 
 def rule_ids(ps):
@@ -63,15 +63,15 @@ man = {
          "kind_free_text": "conditional constant propagation (forward dataflow with joins, callee cloning) over MIR: net effect "
                            "of a &mut self method on the fields of an enum"},
         {"name": "cursor", "path": "/verif/engines/cursor.py",
-         "serves_properties": sorted(p for p in spec.PROPERTIES if any(r in ("E2", "E3", "E5") for r in rule_ids(spec.PROPERTIES[p]))),
-         "kind_free_text": "cursor discipline of emission loops over MIR (linear forms, first-touch exploration, flush exhaustiveness)"},
+         "serves_properties": sorted(p for p in spec.PROPERTIES if any(r in ("E2", "E3", "E5", "E6", "E7", "E8", "E9", "E10") for r in rule_ids(spec.PROPERTIES[p]))),
+         "kind_free_text": "cursor and position discipline of emission code over MIR (linear forms, first-touch exploration, flush exhaustiveness, kill-aware position reuse, prefix/suffix box agreement, comparison-backed equal lengths)"},
     ] + [
         {"name": n, "path": "/verif/engines/%s.py" % n,
          "serves_properties": sorted(p for p in spec.PROPERTIES if any(r[0] == f for r in rule_ids(spec.PROPERTIES[p]))),
          "kind_free_text": TECH[f]} for f, n in sorted(ENGINE_OF.items())
     ],
     "checks": checks,
-    "notes": "Family: static analysis only. Six genuine defects were reported by the checks and repaired by unguarded `fix:` "
+    "notes": "Family: static analysis only. Seven genuine defects were reported by the checks and repaired by unguarded `fix:` "
              "commits in /repo (see known_findings.json `fixed`); one known finding (compaction swap, C11/C05) is listed in "
              "known_findings.json and printed as KNOWN-FINDING. `selftest/run.py` (developer command) replays the mutation "
              "catalogue; `seeded/` holds independently written breaking changes.",
